@@ -54,7 +54,7 @@ type Case struct {
 
 const host = "site.test"
 
-var trustedCfg = []string{"https://trusted.test", "https://*.wild.test", "http://plain.test:8080"}
+var trustedCfg = []string{"https://trusted.test", "https://*.wild.test", "http://plain.test:8080", " https://*.pad.test "} // (the last one padded with blanks, as entries split from a list often are)
 
 // originOK is the independent origin model: same origin (scheme+host of the request) or a configured trusted origin
 // (exact origin, or wildcard entry matching the scheme and a dot-separated host suffix - host, never path).
@@ -73,6 +73,9 @@ func originAllowed(raw, reqScheme string) bool {
 		return true
 	}
 	if u.Scheme == "https" && strings.HasSuffix(u.Host, ".wild.test") && len(u.Host) > len(".wild.test") {
+		return true
+	}
+	if u.Scheme == "https" && strings.HasSuffix(u.Host, ".pad.test") && len(u.Host) > len(".pad.test") {
 		return true
 	}
 	return false
@@ -457,6 +460,7 @@ func check(c Case) vk.Verdict {
 var origins = []string{"", "", "null", "SCHEME://site.test", "http://site.test", "https://site.test", "https://trusted.test", "http://trusted.test", "https://a.wild.test",
 	"https://wild.test", "https://evilwild.test", "https://a.wild.test.evil.test", "https://evil.test", "HTTPS://A.WILD.TEST", "http://plain.test:8080", "http://plain.test",
 	"https://evil.test/x.wild.test", "https://evil.test/?q=.wild.test", "https://site.test.evil.test", "http://a.wild.test",
+	"https://a.pad.test", "https://.evilpad.test", "https://evilpad.test",
 	// a trusted or same host on a foreign port is a different origin
 	"https://trusted.test:8443", "https://a.wild.test:8443", "SCHEME://site.test:8443", "http://plain.test:9090", "https://trusted.test:8080"}
 
